@@ -100,7 +100,8 @@ def snapshot(net, tree, orders=None, arrays=None, exec_order=None, combo_factor=
     snap["sliced_inputs"] = frozenset(int(i) + 1 for i in tree.sliced_inputs)
     # all leaf legs were touched above, so the lazy preprocessing map is filled
     snap["pre"] = frozenset(int(i) + 1 for i in tree.preprocessing)
-    snap["combo"] = {"factor": combo_factor, "value": int(tree.combo_cost(factor=combo_factor))}
+    snap["combo"] = {"factor": combo_factor, "value": int(tree.combo_cost(factor=combo_factor)),
+                     "limit": int(tree.combo_cost(factor=combo_factor, combine=max))}
     inv_ = net._inv()
     snap["view"] = {"inputs": [[inv_[ix] for ix in term] for term in tree.get_inputs_sliced()],
                     "output": [inv_[ix] for ix in tree.get_output_sliced()],
@@ -146,7 +147,7 @@ def snapshot_max(snap):
     m = 0
     for nd in snap["nodes"]:
         m = max(m, nd["size"], nd["flops"])
-    m = max(m, snap["stats"]["flops"], snap["stats"]["write"], snap["combo"]["value"])
+    m = max(m, snap["stats"]["flops"], snap["stats"]["write"], snap["combo"]["value"], snap["combo"].get("limit", 0))
     for pk in snap["peaks"]:
         m = max(m, pk["peak"])
     return m
